@@ -59,6 +59,7 @@ type Impl struct {
 	DefU    UnaryProg
 	DefS    StreamProg
 	invoked map[string]int
+	Returned map[string]uint64
 	// NilReply makes Unary return a nil reply for programs that return nil bytes and nil error? no: see UnaryRaw
 }
 
@@ -119,10 +120,32 @@ func (s *Impl) Stream(kind string, ss grpc.ServerStream) error {
 		p = s.DefS
 	}
 	s.mu.Unlock()
+	defer func() {
+		s.mu.Lock()
+		if s.Returned == nil {
+			s.Returned = map[string]uint64{}
+		}
+		s.Returned[tag] = Tick()
+		s.mu.Unlock()
+	}()
 	if p == nil {
 		return EchoProg(tag, kind, ss)
 	}
 	return p(tag, kind, ss)
+}
+
+// Tick is set by the harness to the global logical clock.
+var Tick = func() uint64 { return 0 }
+
+// ReturnedAt reports the logical time at which the stream handler for tag returned (0 = not yet).
+func (s *Impl) ReturnedAt() map[string]uint64 {
+	s.mu.Lock()
+	defer s.mu.Unlock()
+	out := map[string]uint64{}
+	for k, v := range s.Returned {
+		out[k] = v
+	}
+	return out
 }
 
 // EchoProg echoes every message until EOF.
